@@ -805,7 +805,9 @@ func (s *Server) readPQClientRequestHidden(hs *HandshakeState, b []byte) (int, e
 	bufCopy := make([]byte, len(b))
 
 	for _, cert := range certList {
-		// Copy buffer for processing
+		// Copy buffer for processing. bufCopy is re-sliced while a candidate
+		// is parsed, so every candidate starts from a fresh full-length copy.
+		bufCopy = make([]byte, len(b))
 		copy(bufCopy, b)
 
 		// Recreate duplex at each VM loop
